@@ -6,6 +6,8 @@ use crate::core::{Local, V4};
 
 impl CipherText<V4, Local> {
     pub(crate) fn from(payload: &[u8], encryption_key: &EncryptionKey<V4, Local>) -> Self {
+        #[cfg(rusty_paseto_verif)]
+        crate::verif::emit("keystream:v4");
         let mut ciphertext = vec![0u8; payload.len()];
         ciphertext.copy_from_slice(payload);
 
